@@ -192,7 +192,27 @@ def expand(spec):
             ons.append(list(args))
         else:
             ons.append(tuple(args))
+    if spec.get("self"):
+        # a table joined with itself on the very same key arguments (the same column objects on both sides)
+        return {"L": tabs[0], "R": tabs[0], "lon": ons[0], "ron": ons[0], "sides": [sides[0], sides[0]], "onvecs": [onvecs[0], onvecs[0]]}
     return {"L": tabs[0], "R": tabs[1], "lon": ons[0], "ron": ons[1], "sides": sides, "onvecs": onvecs}
+
+
+def self_joins(prefix, kinds=("inner", "left", "full"), expects=None):
+    """a table joined with itself on the same key columns: every key pattern of up to four rows over two values and None, every
+    kind and expectation, keys by name / own vector"""
+    import itertools
+    expects = expects or EXPECTS
+    i = 0
+    for n in (0, 1, 2, 3, 4):
+        for ks in itertools.product([1, 2, None], repeat=n):
+            if n == 4 and len(set(ks)) == 1 and ks[0] == 2:
+                continue
+            for kind in kinds:
+                for e in expects:
+                    i += 1
+                    yield {"fam": prefix + ".self", "kind": kind, "expect": e, "lk": [list(ks)], "rk": [list(ks)], "v": (0, 1, 5)[i % 3],
+                           "mm": True, "self": True}
 
 
 # ------------------------------------------------------------------------------------------------
